@@ -119,7 +119,20 @@ Proof.
   - destruct (admits (st s) _); intros H; inversion H; subst; ctrl_tac.
   - destruct (wr_ok s w); [|discriminate]. intros H; inversion H; subst; ctrl_tac.
   - intros H; inversion H; subst; ctrl_tac.
+  - destruct (nth_error (calls s) i) as [c|]; [destruct (c_dones c =? 0); [discriminate|]|];
+      intros H; inversion H; subst; ctrl_tac.
 Qed.
+
+Lemma hwait_step_shape s j i s' :
+  hwait_step s j i = Some s' ->
+  exists h, nth_error (hctxs s) j = Some h /\ k_pc h = K1 /\ s' = set_hctxs s (upd (hctxs s) j (set_kpc h (K1w i))).
+Proof.
+  unfold hwait_step. destruct (nth_error (hctxs s) j) as [h|]; [|discriminate].
+  destruct (k_pc h) eqn:E; try discriminate. intros H; inversion H; subst. exists h. auto.
+Qed.
+
+Lemma hwait_step_ctrl s j i s' : hwait_step s j i = Some s' -> same_ctrl s s'.
+Proof. intros H. destruct (hwait_step_shape _ _ _ _ H) as (h & _ & _ & ->). ctrl_tac. Qed.
 
 Lemma stat_inv_ctrl s s' : same_ctrl s s' -> stat_inv s -> stat_inv s'.
 Proof.
@@ -263,6 +276,8 @@ Proof.
     eapply stat_inv_ctrl; [eapply reply_step_ctrl; eauto|exact Hi].
   - unfold noeff in H. destruct (handler_step s j veto wr) eqn:E; inversion H; subst.
     eapply stat_inv_ctrl; [eapply handler_step_ctrl; eauto|exact Hi].
+  - unfold noeff in H. destruct (hwait_step s j i) eqn:E; inversion H; subst.
+    eapply stat_inv_ctrl; [eapply hwait_step_ctrl; eauto|exact Hi].
 Qed.
 
 (* ---- every way the status word can change ---- *)
@@ -321,6 +336,8 @@ Proof.
     apply ch_same. apply (reply_step_ctrl _ _ _ E).
   - unfold noeff in H. destruct (handler_step s j veto wr) eqn:E; inversion H; subst.
     apply ch_same. apply (handler_step_ctrl _ _ _ _ _ E).
+  - unfold noeff in H. destruct (hwait_step s j i) eqn:E; inversion H; subst.
+    apply ch_same. apply (hwait_step_ctrl _ _ _ _ E).
 Qed.
 
 (* closed_absorbing *)
@@ -497,6 +514,17 @@ Proof.
     unfold push_ic_ok; cbn; intros E; destruct (Hpi E) as (X1 & X2 & X3); rewrite ?Epc in *; tauto.
   - inversion H; subst; clear H. unfold put_ctx. refine (G _ _ eq_refl eq_refl eq_refl eq_refl).
     unfold push_ic_ok; cbn; intros E; destruct (Hpi E) as (X1 & X2 & X3); rewrite ?Epc in *; tauto.
+  - destruct (nth_error (calls s) i) as [c|]; [destruct (c_dones c =? 0); [discriminate|]|];
+      inversion H; subst; clear H; refine (G _ _ eq_refl eq_refl eq_refl eq_refl);
+      unfold push_ic_ok; cbn; intros E; destruct (Hpi E) as (X1 & X2 & X3); rewrite ?Epc in *; tauto.
+Qed.
+
+Lemma hwait_step_ic s j i s' : ic_inv s -> hwait_step s j i = Some s' -> ic_inv s'.
+Proof.
+  intros (Hc & Hp & Hb) H. destruct (hwait_step_shape _ _ _ _ H) as (h & En & Epc & ->).
+  pose proof (Forall_nth _ _ _ _ Hp En) as Hpi. unfold push_ic_ok in Hpi.
+  unfold ic_inv, bound_ok; cbn. repeat split; auto. apply Forall_upd; auto.
+  unfold push_ic_ok; cbn. intros E. destruct (Hpi E) as (X1 & X2 & X3). rewrite Epc in X3. tauto.
 Qed.
 
 Lemma ic_inv_same s s' :
@@ -624,6 +652,7 @@ Proof.
   - unfold noeff in H. destruct (caller_step s i veto wr) eqn:E; inversion H; subst. eapply caller_step_ic; eauto.
   - unfold noeff in H. destruct (reply_step s i) eqn:E; inversion H; subst. eapply reply_step_ic; eauto.
   - unfold noeff in H. destruct (handler_step s j veto wr) eqn:E; inversion H; subst. eapply handler_step_ic; eauto.
+  - unfold noeff in H. destruct (hwait_step s j i) eqn:E; inversion H; subst. eapply hwait_step_ic; eauto.
 Qed.
 (* ---- no handler starts after close ---- *)
 Definition hq (h : hctx) : Prop :=
@@ -716,6 +745,13 @@ Proof.
         apply Forall_upd; auto; unfold hq; cbn; destruct (k_kind h); try exact I; discriminate.
     + inversion E; subst; unfold put_ctx; cbn; repeat split; auto;
         apply Forall_upd; auto; unfold hq; cbn; destruct (k_kind h); try exact I; discriminate.
+    + destruct (nth_error (calls s) i) as [c|]; [destruct (c_dones c =? 0); [discriminate|]|];
+        inversion E; subst; cbn; repeat split; auto;
+        apply Forall_upd; auto; unfold hq; cbn; destruct (k_kind h); try exact I; discriminate.
+  - unfold noeff in H. destruct (hwait_step s j i) eqn:E; inversion H; subst.
+    destruct (hwait_step_shape _ _ _ _ E) as (h & En & Epc & ->). cbn. repeat split; auto.
+    pose proof (Forall_nth _ _ _ _ Hh En) as Hq. unfold hq in Hq.
+    apply Forall_upd; auto. unfold hq; cbn. destruct (k_kind h); try exact I; discriminate.
 Qed.
 (* ---- the session invariant along histories ---- *)
 Definition sinv (s : sess) : Prop := stat_inv s /\ ic_inv s.
@@ -798,14 +834,18 @@ Qed.
 Lemma wr_choice_ok s : wr_ok s (wr_choice s) = true.
 Proof. unfold wr_ok, wr_choice. destruct (sock s); reflexivity. Qed.
 
-(* all handler contexts are finished in a terminal state *)
-Lemma terminal_hctx_done s j h : terminal s = true -> nth_error (hctxs s) j = Some h -> k_pc h = KDone.
+(* in a terminal state every handler context is finished, or its user handler waits for a
+   call of the session that has not completed *)
+Lemma terminal_hctx_done s j h : terminal s = true -> nth_error (hctxs s) j = Some h ->
+  k_pc h = KDone \/ exists i c, k_pc h = K1w i /\ nth_error (calls s) i = Some c /\ c_dones c = 0.
 Proof.
   intros H Hn. pose proof (terminal_handler s j h H Hn) as T.
   unfold handler_step in T. rewrite Hn in T. rewrite wr_choice_ok in T. cbv zeta in T.
-  destruct (k_pc h); auto; try discriminate.
-  all: try (destruct (k_kind h) eqn:Ek; discriminate T).
-  all: match type of T with context [if ?x then _ else _] => destruct x end; discriminate T.
+  destruct (k_pc h) eqn:Epc; auto; try discriminate.
+  1-3: try (destruct (k_kind h) eqn:Ek; discriminate T).
+  1-2: try (match type of T with context [if ?x then _ else _] => destruct x end; discriminate T).
+  right. destruct (nth_error (calls s) i) as [c|] eqn:Ec; [|discriminate].
+  destruct (c_dones c =? 0) eqn:Ed; [|discriminate]. apply Nat.eqb_eq in Ed. exists i, c. auto.
 Qed.
 
 Lemma terminal_quiet_closed s : ic_inv s -> terminal s = true -> closed (st s) = true -> quiet_closed s.
@@ -815,7 +855,8 @@ Proof.
     destruct (rd s); auto. destruct x; auto; try discriminate.
     destruct Hb as (c & Hn & _). rewrite Hn in T. discriminate.
   - apply Forall_forall. intros h Hin. destruct (In_nth_error _ _ Hin) as (j & Hj).
-    unfold hq. rewrite (terminal_hctx_done s j h H Hj). destruct (k_kind h); auto; discriminate.
+    unfold hq. destruct (terminal_hctx_done s j h H Hj) as [X|(i & c & X & _)]; rewrite X;
+      destruct (k_kind h); auto; discriminate.
 Qed.
 
 (* no_handler_after_close, along any continuation *)
